@@ -285,10 +285,188 @@ theorem gmpscan_Z_fixed (p : ScanParams) (hty : p.type = 'Z') (hb : p.base ≠ 0
     · cases hde : ds.isEmpty with
       | true => simp
       | false =>
-        simp only [Bool.not_false, Bool.not_true, Bool.false_eq_true, false_or, List.nil_append, hty]
+        simp only [Bool.not_false, Bool.not_true, Bool.false_eq_true, false_or, List.nil_append]
         by_cases hi : p.ignore = true
         · simp [hi]
-        · simp only [hi, if_false]
+        · simp only [hi]
           cases setStr (signStore (c0 :: rest0) ++ ds) p.base <;> simp
+
+
+/-! ### values: what mpz_set_str makes of the stored string, and the digits mpz_get_str writes -/
+
+theorem isDigitIn_minus (b : Nat) : isDigitIn b '-' = false := by
+  unfold isDigitIn; split
+  · decide
+  · have : decide ('0' ≤ '-') = false := by decide
+    simp
+
+theorem setStr_digits (b : Nat) (hb : b = 8 ∨ b = 10 ∨ b = 16) (neg : Bool) (ds : List Char) (hne : ds ≠ [])
+    (hall : ∀ c ∈ ds, isDigitIn b c = true) :
+    setStr ((if neg then ['-'] else []) ++ ds) b = some (if neg then -(strVal b ds : Int) else (strVal b ds : Int)) := by
+  have hb0 : ¬ b = 0 := by omega
+  cases ds with
+  | nil => exact absurd rfl hne
+  | cons a t =>
+    have ha : a ≠ '-' := by
+      intro h; have := hall a List.mem_cons_self; rw [h, isDigitIn_minus] at this; cases this
+    have hda : ¬ digitValue a ≥ b := by
+      have := isDigitIn_lt b hb a (hall a List.mem_cons_self); omega
+    have hallb : (a :: t).all (fun c => decide (digitValue c < b)) = true := by
+      simp only [List.all_eq_true, decide_eq_true_eq]
+      exact fun c hc => isDigitIn_lt b hb c (hall c hc)
+    cases neg with
+    | true =>
+      simp only [if_true, setStr, List.cons_append, List.nil_append, List.head?_cons, decide_true, List.tail_cons,
+        hb0, if_false, hda, hallb, strVal]
+    | false =>
+      simp only [Bool.false_eq_true, if_false, setStr, List.nil_append, List.head?_cons, Option.some.injEq, ha,
+        decide_false, hb0, hda, hallb, if_true, strVal]
+
+theorem natDigits_props (b : Nat) (u : Bool) (hb : 2 ≤ b)
+    (hd : ∀ d, d < b → digitValue (digitChar u d) = d ∧ isDigitIn b (digitChar u d) = true) :
+    ∀ n : Nat, strVal b (natDigits b u n) = n ∧ (∀ c ∈ natDigits b u n, isDigitIn b c = true) := by
+  intro n
+  induction n using Nat.strong_induction_on with
+  | _ n ih =>
+    rw [natDigits]
+    split
+    · rename_i h
+      have hn : n < b := by rcases h with h | h <;> omega
+      obtain ⟨h1, h2⟩ := hd n hn
+      refine ⟨by simp [strVal, h1], ?_⟩
+      intro c hc; simp only [List.mem_singleton] at hc; rw [hc]; exact h2
+    · rename_i h
+      have hn : ¬ n < b := fun h' => h (Or.inl h')
+      obtain ⟨ih1, ih2⟩ := ih (n / b) (Nat.div_lt_self (by omega) (by omega))
+      have hm : n % b < b := Nat.mod_lt _ (by omega)
+      obtain ⟨h1, h2⟩ := hd _ hm
+      refine ⟨?_, ?_⟩
+      · rw [strVal_snoc, ih1, h1]; exact Nat.div_add_mod' n b
+      · intro c hc
+        rcases List.mem_append.mp hc with h | h
+        · exact ih2 c h
+        · simp only [List.mem_singleton] at h; rw [h]; exact h2
+
+/-- the (base, upper-case) pairs the integer conversions use -/
+def ConvBase (b : Nat) (u : Bool) : Prop := (b = 8 ∧ u = false) ∨ (b = 10 ∧ u = false) ∨ (b = 16)
+
+theorem digitChar_props (b : Nat) (u : Bool) (h : ConvBase b u) :
+    ∀ d, d < b → digitValue (digitChar u d) = d ∧ isDigitIn b (digitChar u d) = true := by
+  intro d hd
+  rcases h with ⟨hb, hu⟩ | ⟨hb, hu⟩ | hb
+  · subst hb hu; interval_cases d <;> decide
+  · subst hb hu; interval_cases d <;> decide
+  · subst hb; cases u <;> interval_cases d <;> decide
+
+theorem ConvBase_base (b : Nat) (u : Bool) (h : ConvBase b u) : b = 8 ∨ b = 10 ∨ b = 16 := by
+  rcases h with ⟨hb, _⟩ | ⟨hb, _⟩ | hb <;> simp [hb]
+
+theorem conv_ConvBase (conv : Conv) : ConvBase conv.base conv.upper := by
+  cases conv <;> simp [ConvBase, Conv.base, Conv.upper]
+
+
+/-! ### white space, longest runs -/
+
+theorem skipWhite_spaces (a : Nat) (x : List Char) (hx : ∀ c, x.head? = some c → isSpace c = false) :
+    skipWhite (List.replicate a ' ' ++ x) = (a, x) := by
+  induction a with
+  | zero =>
+    cases x with
+    | nil => rfl
+    | cons c t => simp [skipWhite, hx c rfl]
+  | succ a ih =>
+    have : isSpace ' ' = true := by decide
+    simp [List.replicate_succ, skipWhite, this, ih]
+
+theorem takeWhile_stop (p : Char → Bool) (A B : List Char) (hA : ∀ c ∈ A, p c = true)
+    (hB : ∀ c, B.head? = some c → p c = false) : (A ++ B).takeWhile p = A := by
+  rw [List.takeWhile_append_of_pos hA]
+  cases B with
+  | nil => simp
+  | cons c t => simp [hB c rfl]
+
+/-! ### the shape of printed text -/
+
+/-- the digits printed: none for the value 0 with precision 0 -/
+def printedDigits (prec : Option Nat) (base : Nat) (upper : Bool) (mag : Nat) : List Char :=
+  if mag = 0 ∧ prec.getD 1 = 0 then [] else natDigits base upper mag
+def printedPrefix (f : Flags) (base : Nat) (upper : Bool) (mag : Nat) : List Char :=
+  if f.hash ∧ base = 16 ∧ mag ≠ 0 then (if upper then ['0', 'X'] else ['0', 'x']) else []
+/-- the sign character that is not white space -/
+def printedSign (f : Flags) (neg : Bool) : List Char := if neg then ['-'] else if f.plus then ['+'] else []
+
+/-- Every C99 integer layout is: blanks, sign, base prefix, zeros, digits, blanks (only with `-`). -/
+theorem layoutFrom_shape (f : Flags) (width : Nat) (prec : Option Nat) (base : Nat) (upper : Bool) (neg : Bool) (mag : Nat)
+    (ds0 : List Char) :
+    ∃ a k t, layoutFrom f width prec base upper (signChars f neg) mag ds0 =
+      List.replicate a ' ' ++ (printedSign f neg ++ (printedPrefix f base upper mag ++
+        (List.replicate k '0' ++ (ds0 ++ List.replicate t ' ')))) ∧
+      (f.minus = false → t = 0) ∧
+      (f.hash = true ∧ base = 8 → 1 ≤ k ∨ ds0.head? = some '0') ∧
+      (prec.getD 1 ≤ ds0.length → (f.zero = false ∨ f.minus = true ∨ prec.isSome = true) →
+        ¬ (f.hash = true ∧ base = 8) → k = 0) := by
+  unfold layoutFrom printedPrefix
+  simp only
+  generalize (if f.hash = true ∧ base = 16 ∧ mag ≠ 0 then (if upper = true then ['0', 'X'] else ['0', 'x']) else []) = pre
+  -- the sign: at most one blank, then the printed sign
+  obtain ⟨s, hs⟩ : ∃ s, signChars f neg = List.replicate s ' ' ++ printedSign f neg := by
+    unfold signChars printedSign
+    by_cases h1 : neg = true
+    · exact ⟨0, by simp [h1]⟩
+    · by_cases h2 : f.plus = true
+      · exact ⟨0, by simp [h1, h2]⟩
+      · by_cases h3 : f.space = true
+        · exact ⟨1, by simp [h1, h2, h3]⟩
+        · exact ⟨0, by simp [h1, h2, h3]⟩
+  rw [hs]
+  generalize printedSign f neg = sg
+  -- the digits with their zeros
+  obtain ⟨k1, hk1, hk1a, hk1b⟩ : ∃ k1, (if f.hash = true ∧ base = 8 ∧ (List.replicate (prec.getD 1 - ds0.length) '0' ++ ds0).head? ≠ some '0'
+      then '0' :: (List.replicate (prec.getD 1 - ds0.length) '0' ++ ds0) else List.replicate (prec.getD 1 - ds0.length) '0' ++ ds0) =
+      List.replicate k1 '0' ++ ds0 ∧ (f.hash = true ∧ base = 8 → 1 ≤ k1 ∨ ds0.head? = some '0') ∧
+      (prec.getD 1 ≤ ds0.length → ¬ (f.hash = true ∧ base = 8) → k1 = 0) := by
+    by_cases h : f.hash = true ∧ base = 8 ∧ (List.replicate (prec.getD 1 - ds0.length) '0' ++ ds0).head? ≠ some '0'
+    · refine ⟨prec.getD 1 - ds0.length + 1, ?_, fun _ => Or.inl (by omega), fun _ h' => absurd ⟨h.1, h.2.1⟩ h'⟩
+      rw [if_pos h, List.replicate_succ]; rfl
+    · refine ⟨prec.getD 1 - ds0.length, by rw [if_neg h], ?_, fun h' _ => by omega⟩
+      intro hh
+      have h3 : (List.replicate (prec.getD 1 - ds0.length) '0' ++ ds0).head? = some '0' := by
+        by_contra h3; exact h ⟨hh.1, hh.2, h3⟩
+      cases hk : prec.getD 1 - ds0.length with
+      | zero => rw [hk] at h3; right; simpa using h3
+      | succ n => left; omega
+  rw [hk1]
+  generalize width - ((List.replicate s ' ' ++ sg).length + pre.length + (List.replicate k1 '0' ++ ds0).length) = pad
+  have rr : ∀ (c : Char) (m n : Nat) (l : List Char),
+      List.replicate m c ++ (List.replicate n c ++ l) = List.replicate (m + n) c ++ l := by
+    intros; rw [← List.append_assoc, List.replicate_append_replicate]
+  by_cases hm : f.minus = true
+  · refine ⟨s, k1, pad, ?_, fun h => (by rw [hm] at h; cases h), hk1a, fun h1 _ h3 => hk1b h1 h3⟩
+    simp [hm, List.append_assoc]
+  · have hm' : f.minus = false := by simpa using hm
+    by_cases hz : f.zero = true ∧ prec.isNone = true
+    · refine ⟨s, pad + k1, 0, ?_, fun _ => rfl, fun h => ?_, fun h1 h2 _ => ?_⟩
+      · simp [hm', hz, List.append_assoc, rr]
+      · rcases hk1a h with h | h
+        · left; omega
+        · right; exact h
+      · exfalso
+        rcases h2 with h2 | h2 | h2
+        · rw [hz.1] at h2; cases h2
+        · rw [hm'] at h2; cases h2
+        · have := hz.2; cases prec <;> simp_all
+    · refine ⟨pad + s, k1, 0, ?_, fun _ => rfl, hk1a, fun h1 _ h3 => hk1b h1 h3⟩
+      simp only [hm', Bool.false_eq_true, if_false, if_neg hz]
+      simp [List.append_assoc, rr]
+
+theorem layoutCore_shape (f : Flags) (width : Nat) (prec : Option Nat) (base : Nat) (upper : Bool) (neg : Bool) (mag : Nat) :
+    ∃ a k t, layoutCore f width prec base upper (signChars f neg) mag =
+      List.replicate a ' ' ++ (printedSign f neg ++ (printedPrefix f base upper mag ++
+        (List.replicate k '0' ++ (printedDigits prec base upper mag ++ List.replicate t ' ')))) ∧
+      (f.minus = false → t = 0) ∧
+      (f.hash = true ∧ base = 8 → 1 ≤ k ∨ (printedDigits prec base upper mag).head? = some '0') ∧
+      (prec.getD 1 ≤ (printedDigits prec base upper mag).length → (f.zero = false ∨ f.minus = true ∨ prec.isSome = true) →
+        ¬ (f.hash = true ∧ base = 8) → k = 0) :=
+  layoutFrom_shape f width prec base upper neg mag _
 
 end Mpir.Scanf
